@@ -325,13 +325,16 @@ def expected_retrieve(kernel, script, n, outcomes):
 
 @harness(
     "C21", timeout=(200, 1200), functions=RET_FUNCS, stubs=STUBS, outside=OUTSIDE21,
-    shards=tier(_kshards(["get_qr", "move_qr"]), _kshards(["get_qr", "move_qr"]) + [{"kernel": k, "full": 1} for k in ("get_qr", "move_qr")]),
+    shards=tier(_kshards(["get_qr", "move_qr"]),
+                [{"kernel": k, "n": n} for k in ("get_qr", "move_qr") for n in (1, 2, 3)]
+                + [{"kernel": k, "n": n, "full": 1} for k in ("get_qr", "move_qr") for n in (1, 2, 3)]),
     bounds="C-GET / C-MOVE; N in {1, 2, 3} (quick: 2); handler yields <= %d results; status object of every kind with a value from "
            "the %d-element pool; dataset of every kind (every kind on the first result; thorough 'full' shards: on each of 2 results); sub-operation outcome from "
            "{success, warning, failure[, exception]}; exception point" % (N_SEQ, len(POOL)))
 def c21_retrieve_seq(n_sub: int, skinds: List[int], spool: List[int], dkinds: List[int], outcomes: List[int], raise_at: int) -> bool:
     """
     pre: _C20.N_SUBMIN <= n_sub <= _C20.N_SUBMAX
+    pre: shard("n") is None or n_sub == shard("n")
     pre: len(skinds) <= (N_SEQ if later_restricted() else 2) and len(spool) == len(skinds) and len(dkinds) == len(skinds) and len(outcomes) == len(skinds)
     pre: all(0 <= k <= 3 for k in skinds) and all(0 <= p < len(POOL) for p in spool) and all(0 <= d <= 4 for d in dkinds)
     pre: all(0 <= o <= N_OUT21 for o in outcomes)
